@@ -28,6 +28,9 @@ type Symb struct {
 	// prefix: every leaf hash starts with the same 12 bytes (leaf hashes are chosen by the
 	// user; code that keys a map by a hash prefix must not lose leaves that share it)
 	prefix bool
+	// sparse: leaf hashes that are zero except for one byte among bytes 16..23 (no information in
+	// the first 12 bytes: the pointer forest, which keys its index by them, does not take part)
+	sparse bool
 }
 
 func NewSymb() *Symb {
@@ -79,6 +82,10 @@ func (s *Symb) h(term string) Hash {
 		out = leafHash("verif-leaf", i)
 		if s.prefix {
 			copy(out[:12], "sharedprefix")
+		}
+		if s.sparse {
+			out = Hash{}
+			out[16+i%8] = byte(1 + i/8)
 		}
 	case term[0] == 'B':
 		// a hash that is zero except for one byte (B<i>: byte i is 1): values whose
